@@ -3,7 +3,7 @@ NOTES = ('Contract-based deductive verification of the real code: functions are 
          'side-car contracts are woven on, Verus discharges every obligation. exit 2 = undecided (never an alarm). See DESIGN.md.')
 ENGINES = [
     {'name': 'E1 verus-extract', 'path': '/verif/check, /verif/lib/{rsitems,weave}.py, /verif/units/*.vu, /verif/prelude/*.rs',
-     'serves_properties': ['C15'], 'kind_free_text': 'mechanical extraction of /repo Rust items into single-file Verus units with side-car contracts; Z3 back end'},
+     'serves_properties': ['C05', 'C06', 'C08', 'C15'], 'kind_free_text': 'mechanical extraction of /repo Rust items into single-file Verus units with side-car contracts; Z3 back end'},
     {'name': 'E3 kani', 'path': '/verif/kani/*', 'serves_properties': [], 'kind_free_text': 'Kani/CBMC harness crates with path deps on /repo crates; complete for finite domains, otherwise labelled bounded'},
 ]
 PENDING = 'not yet claimed: machinery for this property is still being built (see DESIGN.md §10 build order)'
@@ -16,9 +16,30 @@ NOT_APPLICABLE = {
 META = {
     'C15': {
         'engine': 'E1 verus-extract',
-        'technique': 'Verus function contracts woven onto code extracted from /repo each run (System::advance_clock, ensure_trace_capacity, ExecutionOptions::new)',
+        'technique': 'Verus function contracts woven onto code extracted from /repo each run (System::advance_clock, Process::execute_op/advance_clock, block executors with decreases, ExecutionOptions::new)',
         'design_ref': '§7 C15',
-        'level_text': 'Deductive proof for all inputs: advance_clock increments by exactly one and returns Ok iff the new clk <= max_cycles (Err carries CycleLimitExceeded(max)); rows written equal the registers, all other rows unchanged; ExecutionOptions::new refuses exactly the documented option sets.',
-        'level_note': 'Trusted: Felt model (winter-math), core::u32::next_power_of_two contract, Verus/Z3. Preconditions: clk < u32::MAX, expected_cycles <= 2^31.',
+        'level_text': 'Deductive proof for all inputs: advance_clock increments by exactly one and returns Ok iff the new clk <= max_cycles (Err carries CycleLimitExceeded(max)); execute_op = exactly one cycle; every block executor and the while.true loop verify with decreases max_cycles - clk (every program stops); ExecutionOptions::new refuses exactly the documented option sets.',
+        'level_note': 'Trusted: Felt model (winter-math), core::u32::next_power_of_two contract, Verus/Z3. Preconditions: max_cycles <= 2^29 - 1 (beyond it the trace cannot be allocated), expected_cycles <= 2^31. span/call/dyn executors: contract assumed inside unit executor until their own proofs land.',
+    },
+    'C08': {
+        'engine': 'E1 verus-extract',
+        'technique': 'Verus representation invariant on the real OpBatchAccumulator + loop invariant on batch_ops; postconditions on Join/Split/Loop/Call/Dyn::new; opcode table vs docs',
+        'design_ref': '§7 C08',
+        'level_text': 'Deductive proof for all operation sequences: batching keeps order, drops/duplicates nothing (concat of batch ops == input), <= 8 groups/batch, <= 9 ops/group, immediates in the following groups in order, an immediate-carrying op is never 9th, group value = sum opcode_k*128^k (decodes back digit by digit, NOOP = 0 padding), span hash = RPO hash of the concatenated group arrays; control-block hashes are merges in the documented domains; opcode table equals the documented one.',
+        'level_note': 'Trusted: RPO (hash_elements / merge_in_domain) uninterpreted - collision resistance not assumed; Felt model; flatten_slice_elements contract. DYN_CONSTANT vs real RPO is not re-computed here.',
+    },
+    'C05': {
+        'engine': 'E1 verus-extract',
+        'technique': 'Verus contracts on the real stack primitives (whole-view postconditions) and on every op_* function against hub relations written from the docs; execute_op dispatcher proved against op_rel',
+        'design_ref': '§7 C05',
+        'level_text': 'Deductive proof for all stack states (any depth >= 16, any operand values): L1 Stack::{shift_left,shift_right,copy_state,set,..} with zero-fill at depth 16, LIFO overflow, every deeper element unchanged; L2 every field/u32/stack-manipulation/system/ext2/push operation ensures next_view == sem_X(view) and fails exactly when fail_X(view).',
+        'level_note': 'Trusted: Felt model; bitwise chiplet contract (u32and/xor); host = arbitrary oracle. Unchecked u32 arithmetic ops are specified (as documented) for u32 operands only. L3 (assembly instruction -> op sequence via the real assembler) and the text parser are not decided yet.',
+    },
+    'C06': {
+        'engine': 'E1 verus-extract',
+        'technique': 'Verus contracts on the real block executors against an axiomatised least-relation semantics (exec_rel / iter_rel intro rules from the docs), loop invariant in continuation style',
+        'design_ref': '§7 C06',
+        'level_text': 'Deductive proof for all programs and inputs: a successful run of a join/split/loop block is derivable with the documented rules only (split takes exactly the selected branch, loop iterates exactly while the popped value is 1); a non-binary condition at a split, at loop entry or after an iteration is an execution error; executors are properly nested and terminate.',
+        'level_note': 'Trusted: decoder method contracts (assumed), hub rules are the semantics definition. AST->MAST lowering (repeat.n unrolling, exec inlining) and the parser are outside Verus reach: not decided.',
     },
 }
